@@ -24,6 +24,10 @@ def cases(tier, rng, boost=1):
     yield _mk([[0.5, 0.5], [0.5, 0.5], [0.5, 0.5]], 'nonsquare')
     yield _mk([[1.0]], 'one_by_one')
     yield _mk([[0.5, 0.5, 0.0], [0.5, 0.5, 0.0]], 'nonsquare')
+    for n in range(3, 7):
+        for extra, tag2 in (([[1]], 'wielandt+absorbing'), ([[0]], 'wielandt+unvisited')):
+            for reps in (1, 2):
+                yield _mk([[float(v) for v in row] for row in gen.normalise_counts(gen.block_diag([gen.wielandt(n)] + [extra] * reps))], tag2)
     for c, tag in gen.count_matrices(tier, rng, boost):
         M = gen.normalise_counts(c)
         r = rng.random()
@@ -36,9 +40,17 @@ def cases(tier, rng, boost=1):
         yield _mk([[float(v) for v in row] for row in M], tag)
 
 
+_BUFFERS = {}
+
+
 def real(case):
     from msmhelper.utils import tests as t
-    M = np.array(case['M'], dtype=np.float64)
+    M0 = np.array(case['M'], dtype=np.float64)
+    if M0.ndim == 2:
+        M = _BUFFERS.setdefault(M0.shape, np.empty_like(M0))     # buffer re-used across calls, overwritten in place
+        np.copyto(M, M0)
+    else:
+        M = M0
 
     def one(fn):
         # a non-square input may be refused with an exception instead of `False`: both mean "not reported ergodic"
